@@ -363,27 +363,28 @@ CHECKS = {
 
 # what the correspondence generators gained after the seeded rounds 6 and 7 (appended to the claim text by mkmanifest)
 ADDENDA = {
+    'C07': ' Regenerated obligation start_cycle_step_order (connect, reset, the three tasks, their end, close, back-off delay).',
     'C01': ' Session ledger additions: UDH-segmented messages; messages queued while the session is winding down after a drop; a message '
            'no Sender task reported is the known cancelled-sender finding only if the task holding it was cancelled, not if it ended of '
-           'its own accord.',
-    'C02': '',
+           'its own accord. Regenerated obligation handle_response_step_order.',
+    'C02': ' Regenerated obligations: handle_request_step_order, get_delivery_step_order (Gen/Site.lean).',
     'C04': ' Foreign PDUs also carry absolute validity periods with every quarter-hour offset of both signs and relative schedule times; '
            'PDUs are decoded after PDUs the library refuses (decoder keeps no state).',
-    'C06': ' Whole queues also run with a sequence generator that passes the largest SMPP sequence number in the middle of the queue.',
+    'C06': ' Whole queues also run with a sequence generator that passes the largest SMPP sequence number in the middle of the queue. Regenerated obligation sender_loop_step_order (Gen/Site dequeueLoop: loop nesting and order of the Sender loop).',
     'C08': ' Session level: the PDUs the real Sender writes for messages with options and application parameters are read by an independent '
            'receiver (SAR / UDH, esm_class variants with bits 7-6 set), each after every kind of previous message handled by the same Sender task.',
-    'C09': ' Histories with one source address per message (colliding concatenations), pauses up to the delivery time-to-live between segments.',
+    'C09': ' Histories with one source address per message (colliding concatenations), pauses up to the delivery time-to-live between segments. Regenerated obligation handle_request_step_order.',
     'C10': ' History cases: the same text through the packed codec in between, one representative of every Unicode category, decoder history.',
     'C11': ' History cases: repeated texts, decoder input ending in the escape code followed by another input.',
     'C12': ' Objects are serialised again after the library changed them, the same JSON text is decoded twice with the first result changed in '
            'between, time fields use the library\'s own tzinfo class.',
-    'C13': ' Exceptions raised by a correlator operation under an interleaving are observations (the check goes on to name the schedule).',
+    'C13': ' Exceptions raised by a correlator operation under an interleaving are observations (the check goes on to name the schedule). Regenerated obligation handle_response_step_order.',
     'C14': ' The by-the-next-request clause counts the bind request of a reconnect; exceptions raised under an interleaving are observations.',
     'C15': ' Inbound traffic includes delivery receipts of every shape (without dates, dates with seconds, words for numbers, unknown fields), '
            'peer unbind followed by enqueues.',
-    'C16': ' Sessions with application submits and a peer that stops reading; arrival times are taken where the PDU is read.',
+    'C16': ' Sessions with application submits and a peer that stops reading; arrival times are taken where the PDU is read. Regenerated obligation keeper_step_order (the probe is a task of its own).',
     'C17': ' Datetimes of both seasons through ONE rule-based tzinfo object per zone (its offset depends on the date).',
-    'C18': ' An exception out of limit() is an observation judged by the predicate.',
-    'C19': ' Reboot cases: the new process\'s monotonic clock starts over, far below the stamps in the files; the correlations must still be found.',
+    'C18': ' An exception out of limit() is an observation judged by the predicate. Regenerated obligation gate_step_order (throttle handler and limiter consulted inside the loop over the PDUs of a message).',
+    'C19': ' Reboot cases: the new process\'s monotonic clock starts over, far below the stamps in the files; the correlations must still be found. Regenerated obligation in_place_changes_assigned_back (Gen/AssignBack.lean: a static analysis of SimpleCorrelator finds every in-place change of an object taken from a persisted store and checks that an assignment back to the store follows that is not nested deeper than the change).',
     'C20': ' The same DeliverSm is parsed a second time (as the library itself does) and must give the same dictionary.',
 }
